@@ -79,7 +79,7 @@ SPEC = {
         "LEAN": {"modules": ["GfaProofs.Bridge.Regex", "GfaProofs.Lemmas.Regex", "GfaProofs.C20", "GfaProofs.Bridge.LineFmt", "GfaProofs.C04Line", "GfaProofs.C04Validate"],
                  "support": ["GfaProofs.Lemmas.RegexLang", "GfaModel.Grammar", "GfaModel.Field", "GfaModel.Regex", "GfaModel.LineFmt", "GfaModel.Validate"],
                  "theorems": ["Gfa.C04Validate.validate_simple", "Gfa.C04Validate.simple_virtual_iff", "Gfa.C04Validate.validate_refs_real",
-                              "Gfa.C04Validate.validate_ok_iff", "Gfa.C04.acceptFields_iff", "Gfa.C04.accept_rewrite", "Gfa.C04.accept_too_few", "Gfa.C04.accept_dup_tag",
+                              "Gfa.C04Validate.validate_ok_iff", "Gfa.C04.idGfa2_not_placeholder", "Gfa.C04.accepted_S2_named", "Gfa.C04.accepted_F_named", "Gfa.C04.acceptFields_iff", "Gfa.C04.accept_rewrite", "Gfa.C04.accept_too_few", "Gfa.C04.accept_dup_tag",
                               "Gfa.C04.accept_predefined_type", "Gfa.Bridge.LineFmt.posfields_table", "Gfa.Bridge.LineFmt.predefined_table",
                               "Gfa.Bridge.LineFmt.classes_complete", "Gfa.RE.accepts_iff", "Gfa.C20.int_accept_iff", "Gfa.C20.accept_Z_iff", "Gfa.C20.hex_odd_rejected",
                               "Gfa.C20.accept_intStr", "Gfa.C20.numarr_range_rejected"] +
